@@ -60,7 +60,7 @@
 (* A document is [objs |-> Seq(Val), root |-> Val]  (object i = objs[i],    *)
 (* root = the trailer's Root entry).                                        *)
 (***************************************************************************)
-EXTENDS Integers, Sequences, FiniteSets
+EXTENDS Integers, Sequences, FiniteSets, SequencesExt
 
 CONSTANTS DerefLimit,        \* Document::DEREF_LIMIT (128 in the code)
           Dev_NextCycle,     \* get_outlines: no guard on the Next loop
@@ -143,9 +143,8 @@ ContInit(doc, id) ==
     IN IF c = None THEN [pc |-> "ok", cur |-> None, nb |-> 0, out |-> <<>>, cls |-> ""]
        ELSE [pc |-> "run", cur |-> c, nb |-> 0, out |-> <<>>, cls |-> ""]
 
-RefIds(es) == LET F[i \in 0..Len(es)] ==
-                     IF i = 0 THEN <<>> ELSE IF es[i].k = "ref" THEN Append(F[i - 1], es[i].n) ELSE F[i - 1]
-              IN F[Len(es)]
+\* (folds, not recursive definitions: the chains of scenario "chain" make these sequences hundreds long)
+RefIds(es) == FoldLeft(LAMBDA acc, v : IF v.k = "ref" THEN Append(acc, v.n) ELSE acc, <<>>, es)
 
 ContStep(doc, s) ==
     IF s.cur.k = "ref" THEN
@@ -292,7 +291,7 @@ PgHint(doc, kids, stack) ==      \* only evaluated when no summand is huge
         S[j \in 0..Len(stack)] == IF j = 0 THEN 0 ELSE S[j - 1] + L(stack[j])
     IN K[Len(kids)] + S[Len(stack)]
 
-Max(a, b) == IF a >= b THEN a ELSE b
+Max2(a, b) == IF a >= b THEN a ELSE b
 
 PgStep(doc, s) ==
     IF s.kids # <<>> THEN
@@ -307,11 +306,11 @@ PgStep(doc, s) ==
              IN IF ty = "Page" THEN
                     IF ask /\ PgHintHuge(doc, rest, s.stack)
                     THEN IF Dev_SizeHint THEN [s1 EXCEPT !.pc = "panic", !.cls = "pages.count.huge"]
-                         ELSE [s1 EXCEPT !.out = Append(s.out, kid.n), !.cap = Max(4, 2 * s.cap)]   \* repaired: clamped
+                         ELSE [s1 EXCEPT !.out = Append(s.out, kid.n), !.cap = Max2(4, 2 * s.cap)]   \* repaired: clamped
                     ELSE IF ask
                          THEN [s1 EXCEPT !.out = Append(s.out, kid.n),
-                                         !.cap = IF len = 0 THEN Max(4, PgHint(doc, rest, s.stack) + 1)
-                                                 ELSE Max(2 * s.cap, len + PgHint(doc, rest, s.stack) + 1)]
+                                         !.cap = IF len = 0 THEN Max2(4, PgHint(doc, rest, s.stack) + 1)
+                                                 ELSE Max2(2 * s.cap, len + PgHint(doc, rest, s.stack) + 1)]
                          ELSE [s1 EXCEPT !.out = Append(s.out, kid.n)]
                 ELSE IF ty = "Pages" /\ Len(s.stack) < PageTreeDepthLimit
                      THEN [s1 EXCEPT !.stack = IF rest # <<>> THEN Append(s.stack, rest) ELSE s.stack,
@@ -627,8 +626,7 @@ SizeV(v) ==
         D[i \in 0..Len(v.d)] == IF i = 0 THEN 0 ELSE D[i - 1] + SizeV(v.d[i][2])
     IN 1 + E[Len(v.e)] + D[Len(v.d)]
 
-SizeDoc(doc) == LET F[i \in 0..Len(doc.objs)] == IF i = 0 THEN 0 ELSE F[i - 1] + SizeV(doc.objs[i])
-                IN F[Len(doc.objs)] + 1
+SizeDoc(doc) == FoldLeft(LAMBDA acc, v : acc + SizeV(v), 1, doc.objs)
 
 \* Outcome of a finished walker as one string: "ok", "err", or "<bad>:<class>"
 OutcomeStr(s) == IF s.pc \in {"ok", "err"} THEN s.pc ELSE s.pc \o ":" \o s.cls
